@@ -89,6 +89,7 @@ class C19(Prop):
                 mem_segs.append([addr, bytes(view).hex()])
             regions.append(reg)
             addr += ln
+            addr = (addr + page - 1) // page * page   # mappings start on page boundaries
         mem_size = addr + page if not rng.chance(1, 10) else rng.range(regions[0]["start"], addr)
         pm_entries = addr // page + 2 if not rng.chance(1, 12) else rng.range(0, addr // page)
         # ops
